@@ -202,3 +202,13 @@ def run(facts, rep, ctx):
     if ctx.get('flavor') != 'nochk':
         round5.po10(facts, rep)
     round5.pq1(facts, rep)
+
+
+_run_before_round6 = run
+
+
+def run(facts, rep, ctx):
+    """rules added after the fifth seeding round (rules/round6.py)"""
+    _run_before_round6(facts, rep, ctx)
+    from . import round6
+    round6.dl1(facts, rep)
